@@ -36,7 +36,14 @@ C07Ctx(t) ==
       \* the terminator; the placement is judged at the offset that was chosen
       chosen(s) == LET c == InvsAt(t, s.reg, s.u)
                    IN  IF s.pos = "ANYWHERE" /\ Len(c) = 1 /\ c[1].off \in s.offs THEN c[1].off ELSE s.off
-      sites == {[reg |-> s.reg, u |-> s.u, pos |-> s.pos, off |-> chosen(s), offs |-> s.offs, fn |-> s.fn] : s \in sites0}
+      sites1 == {[reg |-> s.reg, u |-> s.u, pos |-> s.pos, off |-> chosen(s), offs |-> s.offs, fn |-> s.fn] : s \in sites0}
+      \* a zero-sized code block has no instruction to instrument: a scope that
+      \* designates blocks by a predicate may skip it (if it does not, the
+      \* insertion is judged like any other)
+      optional(s) == /\ BlockByU(t.pre, s.u).n = 0
+                     /\ regs[s.reg + 1].scope.kind # "single"
+                     /\ InvsAt(t, s.reg, s.u) = <<>>
+      sites == {s \in sites1 : ~optional(s)}
       expPos == ExpectedPositions(t.pre, sites, MLen(t))
       \* where the observed contexts say the patches went
       ctxOk == \A i \in DOMAIN t.invs :
@@ -47,7 +54,7 @@ C07Ctx(t) ==
       ctxPos == IF ctxOk
                 THEN {[inv |-> x.inv, s |-> SecNameOf(t.pre, x.u), p |-> SitePos(t.pre, ctxSites, x, MLen(t))] : x \in ctxSites}
                 ELSE {}
-  IN  [t |-> t, M |-> M, regs |-> regs, sites |-> sites, expPos |-> expPos,
+  IN  [t |-> t, M |-> M, regs |-> regs, sites |-> sites, allsites |-> sites1, expPos |-> expPos,
        ctxOk |-> ctxOk, ctxPos |-> ctxPos, refused |-> Refused(M, regs)]
 
 (***************************************************************************)
@@ -68,7 +75,8 @@ DomC07(t) ==
       /\ \A i, j \in DOMAIN t.pre.fns : i # j => t.pre.fns[i].name # t.pre.fns[j].name
       /\ \A i \in DOMAIN t.regs :
             /\ t.regs[i].id = i - 1
-            /\ (t.regs[i].kind = "single" => BlockByU(t.pre, t.regs[i].u).k = "code")
+            /\ (t.regs[i].kind = "single" =>
+                  BlockByU(t.pre, t.regs[i].u).k = "code" /\ BlockByU(t.pre, t.regs[i].u).n > 0)
 
 C07PreBytes(t) == {[name |-> t.pre.secs[i].name, bytes |-> t.pre.secs[i].bytes] : i \in DOMAIN t.pre.secs}
 C07PostBytes(t) == {[name |-> t.postsecs[i].name, bytes |-> t.postsecs[i].bytes] : i \in DOMAIN t.postsecs}
@@ -144,11 +152,11 @@ CtxBad(X) ==
             /\ [inv |-> v.inv, s |-> ms[1].s, p |-> ms[1].p] \in X.ctxPos)}}
 C07_ContextNames(X) == CtxBad(X) = {}
 
-\* KF-C07-1: a scope designates a zero-sized code block; apply() crashes on the
+\* KF-C07-1: an AllBlocksScope / AllFunctionsScope designates a zero-sized code block; apply() crashes on the
 \* first such block in address order (ValueError from the decoder when one of
 \* its modifications needs the disassembly, else AssertionError from insert()),
 \* leaving the earlier blocks rewritten.
-ZeroSites(X) == {s \in X.sites : BlockByU(X.t.pre, s.u).n = 0}
+ZeroSites(X) == {s \in X.allsites : BlockByU(X.t.pre, s.u).n = 0}
 KF_C07_1(X) ==
   /\ ZeroSites(X) # {}
   /\ X.t.stage = "apply"
